@@ -192,8 +192,8 @@ def run(tier: str, replay=None) -> int:
             e2e_check(chk, r["axes"], r["tol"], r["method"], set(r["allowed"]), random.Random(seed()))
         return chk.finish()
     if tier == "quick":
-        plans = [(list(range(7)), 3, 2, [0, 1, 2, 3])]
-        n_e2e = 600
+        plans = [(list(range(7)), 3, 2, [0, 1, 2, 3]), (list(range(5)), 2, 3, [0, 1, 2])]     # 3 datasets: a moved point can mislead a later dataset
+        n_e2e = 400
     else:
         plans = [(list(range(7)), 3, 2, [0, 1, 2, 3]), (list(range(6)), 2, 3, [0, 1, 2, 3]), (list(range(9)), 4, 2, [0, 1, 2])]
         n_e2e = 6000
